@@ -28,6 +28,10 @@ def norm_callee(c):
     return "".join(out).strip()
 
 
+def short_fn(name):
+    return re.sub(r"\{closure#\d+\}", "{closure}", name.split(">::")[-1])
+
+
 def find_fn(funcs, pattern):
     c = [f for n, f in funcs.items() if re.search(pattern, n)]
     return c
@@ -84,7 +88,9 @@ def q_reach_allow(ctx, p):
     if len(fns) != 1:
         return dict(status="inconclusive", reason="function pattern %r matched %d functions" % (p["fn"], len(fns)))
     glob = sym.Glob()
-    allow = [re.compile(a) for a in p["allow"]]
+    glob.inline = p.get("inline", [])
+    allow = [re.compile(a) for a in p.get("allow", [])]
+    deny = [re.compile(a) for a in p.get("deny", [])]
     must = [re.compile(a) for a in p.get("must_reach", [])]
     must_seen = set()
     witnesses, details, functions = [], [], []
@@ -102,6 +108,14 @@ def q_reach_allow(ctx, p):
         s = z3.Solver()
         s.add(assum)
         s.add(enc.extra)
+        if not ctxpath:
+            for name, val in (p.get("assume_debug") or {}).items():
+                v = enc.debug_value(name)
+                if v is None:
+                    return dict(status="inconclusive", reason="source variable %r not found/tracked in %s" % (name, fn.name))
+                s.add(v == val)
+            if ctx.check(s) != z3.sat:
+                return dict(status="inconclusive", reason="vacuity guard: assumptions unsatisfiable")
         scope = None
         if p.get("scope_loop_next") and not ctxpath:
             scope = loop_body(enc, p["scope_loop_next"])
@@ -122,7 +136,7 @@ def q_reach_allow(ctx, p):
             for i, mre in enumerate(must):
                 if mre.search(nc):
                     must_seen.add(i)
-            ok = any(a.search(nc) for a in allow)
+            ok = (not any(d.search(nc) for d in deny)) if deny else any(a.search(nc) for a in allow)
             # closures handed to the callee run under the same assumptions: descend
             for loc in re.findall(r"\{closure@([^}]*)\}", callee):
                 cf = closure_fn(funcs, loc)
@@ -134,7 +148,7 @@ def q_reach_allow(ctx, p):
                 discharged += 1
             else:
                 where = " via ".join([fn.name.split(">::")[-1]] + ctxpath[::-1])
-                witnesses.append(dict(key="%s -> %s" % (fn.name.split(">::")[-1], nc),
+                witnesses.append(dict(key="%s -> %s" % (short_fn(fn.name), nc),
                                       what="call %s reachable in %s bb%d under %s" % (nc, where, b, p.get("assume", []))))
         details.append("%s: %d call sites examined" % (fn.name.split(">::")[-1], len(enc.call_sites())))
     miss = [p["must_reach"][i] for i in range(len(must)) if i not in must_seen]
@@ -315,8 +329,8 @@ def q_dominates(ctx, p):
     g = ghost_count(enc, p["before"])
     targets = enc.call_sites(p["target"])
     befores = enc.call_sites(p["before"])
-    if not targets or not befores:
-        return dict(status="inconclusive", reason="vacuity guard: %d target sites, %d before sites" % (len(targets), len(befores)))
+    if not targets:
+        return dict(status="inconclusive", reason="vacuity guard: no target call sites matching %r" % p["target"])
     witnesses = []
     obligations = discharged = 0
     extra = []
@@ -334,7 +348,10 @@ def q_dominates(ctx, p):
             hit = False
             for b in enc.order:
                 for k, v in enc.out_state[b].items():
-                    if k.startswith("disc:") and re.search(pat, k):
+                    if not k.startswith("disc:"):
+                        continue
+                    desc = k + " : " + " ".join(fn.locals.get(l, "") for l in re.findall(r"_\d+", k))
+                    if re.search(pat, desc):
                         extra.append(v == val)
                         hit = True
             if not hit:
@@ -353,6 +370,13 @@ def q_dominates(ctx, p):
     uniq = {}
     for w in witnesses:
         uniq.setdefault(w["key"], w)
+    if p.get("sanity_expect_fail"):
+        # vacuity twin: with the enabling assumption negated the ordering must NOT hold
+        if uniq:
+            return dict(status="held", witnesses=[], obligations=obligations, discharged=obligations, functions=[fn.name],
+                        details=["sanity twin: %d witnesses found as expected" % len(uniq)])
+        return dict(status="inconclusive", reason="vacuity guard: sanity twin found no witness", obligations=obligations,
+                    discharged=discharged, functions=[fn.name])
     return dict(status="failed" if uniq else "held", witnesses=list(uniq.values()), obligations=obligations,
                 discharged=discharged, functions=[fn.name],
                 details=["%d target call sites, each checked for a %s-free path" % (len(targets), p["before"])])
@@ -433,7 +457,86 @@ def q_string_set(ctx, p):
                 details=["one string variable for the argument; spec set of %d names" % len(p["spec"])])
 
 
+def resolve_callee(funcs, callee, nargs):
+    nc = norm_callee(callee)
+    last = nc.split("::")[-1]
+    cands = [f for n, f in funcs.items() if not n.startswith("const ") and norm_callee(n).split("::")[-1] == last and len(f.args) == nargs]
+    if len(cands) > 1 and "::" in nc:
+        owner = nc.split("::")[-2]
+        c2 = [f for f in cands if owner in f.name or (owner == "Server" and "server.rs" in f.name)]
+        if c2:
+            cands = c2
+    return cands[0] if len(cands) == 1 else None
+
+
+def q_arg_flow(ctx, p):
+    """Every call in fn to a crate function that has a parameter named like p['callee_params'] must
+    pass the caller's own parameter p['param'] unchanged (solver: operand != param unsat on every
+    feasible path).  Callees matching p['needs'] that have no such parameter are reported unless
+    they match p['exempt']."""
+    funcs = ctx.funcs
+    fns = find_fn(funcs, p["fn"])
+    if len(fns) != 1:
+        return dict(status="inconclusive", reason="function pattern matched %d" % len(fns))
+    fn = fns[0]
+    glob = sym.Glob()
+    enc = sym.Enc(fn, funcs, glob)
+    src = enc.debug_value(p["param"])
+    if src is None:
+        return dict(status="inconclusive", reason="parameter %r not tracked" % p["param"])
+    s = z3.Solver()
+    s.add(enc.extra)
+    names = set(p["callee_params"])
+    needs = [re.compile(x) for x in p.get("needs", [])]
+    exempt = [re.compile(x) for x in p.get("exempt", [])]
+    witnesses, details = [], []
+    obligations = discharged = 0
+    checked = 0
+    for b, t in enc.call_sites():
+        nc = norm_callee(t["callee"])
+        cf = resolve_callee(funcs, t["callee"], len(t["args"]))
+        idx = None
+        if cf is not None:
+            for nm, place in cf.debug.items():
+                if nm in names and place in cf.args:
+                    idx = cf.args.index(place)
+        if idx is not None:
+            obligations += 1
+            checked += 1
+            st = enc.out_state[b]
+            actual = enc.operand(st, t["args"][idx])
+            if actual is None:
+                witnesses.append(dict(key="%s: %s gets an untracked %s" % (fn.name.split(">::")[-1], nc, p["param"]),
+                                      what="argument %d of %s is not a tracked copy of %s" % (idx, nc, p["param"])))
+                continue
+            r = ctx.check(s, enc.reach[b], actual != src)
+            if r == z3.unsat:
+                discharged += 1
+            elif r == z3.sat:
+                witnesses.append(dict(key="%s: %s gets a different %s" % (fn.name.split(">::")[-1], nc, p["param"]),
+                                      what="call %s at bb%d can receive a value different from the caller's %s" % (nc, b, p["param"])))
+            else:
+                return dict(status="inconclusive", reason="solver unknown")
+        elif any(x.search(nc) for x in needs) and not any(x.search(nc) for x in exempt):
+            obligations += 1
+            r = ctx.check(s, enc.reach[b])
+            if r == z3.sat:
+                witnesses.append(dict(key="%s: %s has no %s parameter" % (fn.name.split(">::")[-1], nc, p["param"]),
+                                      what="handler %s is reachable (bb%d) and takes no %s argument: it cannot act on the connection's selected database" % (nc, b, p["param"])))
+            else:
+                discharged += 1
+    if checked == 0:
+        return dict(status="inconclusive", reason="vacuity guard: no callee with a parameter named %s" % sorted(names))
+    details.append("%d call sites pass %s; each compared with the caller's parameter by the solver" % (checked, p["param"]))
+    uniq = {}
+    for w in witnesses:
+        uniq.setdefault(w["key"], w)
+    return dict(status="failed" if uniq else "held", witnesses=list(uniq.values()), obligations=obligations,
+                discharged=discharged, functions=[fn.name], details=details)
+
+
 KINDS = {
+    "arg_flow": q_arg_flow,
     "reach_allow": q_reach_allow,
     "loop_one_push": q_loop_one_push,
     "dominates": q_dominates,
